@@ -59,6 +59,12 @@ def run_with_edits(pcode: str, edits: list[tuple[int, list]], total: int):
             prot = {n.id for n in run.engine.interpreter._program.get_all_nodes()
                     if (n.started or n.completed) and not n.failed}
             touches_started = any(i in prot and i in old_map and old_map[i] != c for i, c in new)
+            # a Watch/Alarm inside a Watch/Alarm body whose interrupt is registered at the time of the edit
+            # (separate known finding: the restarted enclosing handler then waits inside the nested one)
+            nested_reg = any(getattr(n, "interrupt_registered", False) and
+                             any(type(q).__name__ in ("WatchNode", "AlarmNode") for q in n.parents)
+                             for n in run.engine.interpreter._program.get_all_nodes()
+                             if type(n).__name__ in ("WatchNode", "AlarmNode"))
             marks_before = marks_of(snap) if snap else []
             status_before = (str(run.snapshot()["raw_tags"].get("Method Status")), str(run.snapshot()["raw_tags"].get("System State")),
                              run.engine.has_error_state())
@@ -67,7 +73,7 @@ def run_with_edits(pcode: str, edits: list[tuple[int, list]], total: int):
             after = run.engine.method_manager.get_method_state()
             status_after = (str(run.snapshot()["raw_tags"].get("Method Status")), str(run.snapshot()["raw_tags"].get("System State")),
                             run.engine.has_error_state())
-            info.append({"status_before": status_before, "status_after": status_after,"at": at, "res": res, "touches_started": touches_started, "new": new,
+            info.append({"status_before": status_before, "status_after": status_after,"at": at, "res": res, "touches_started": touches_started, "nested_reg": nested_reg, "new": new,
                          "before": {"started": list(before.started_line_ids), "executed": list(before.executed_line_ids),
                                     "failed": list(before.failed_line_ids)},
                          "after": {"started": list(after.started_line_ids), "executed": list(after.executed_line_ids),
@@ -134,7 +140,9 @@ def oracle(case) -> list[Failure]:
                 fails.append(Failure("edit-reexecutes-started-line", case,
                                      f"marks set more often than in a run of the final method from the start: {more}"))
             elif less:
-                fails.append(Failure("edit-loses-line", case,
+                sub = ":nested-interrupt-registered-at-edit" if any(
+                    e["nested_reg"] and e["res"] == "ok" for e in a["edits"]) else ""
+                fails.append(Failure("edit-loses-line" + sub, case,
                                      f"marks missing compared with a run of the final method from the start: {less}"))
     if not accepted_any and a["edits"] and all(e["res"] != "ok" for e in a["edits"]):
         # rejected edits must not affect the run
